@@ -11,7 +11,8 @@
 (* together with the probe points the binder has to locate.                *)
 (***************************************************************************)
 EXTENDS Buffer, TLC, Json
-CONSTANTS GeomStride       \* take every GeomStride-th (geometry, buffers) combination (1 = all)
+CONSTANTS GeomStride,      \* take every GeomStride-th (geometry, buffers) combination (1 = all)
+          AllUnits         \* TRUE: every combination at all three time units; FALSE: one unit per combination
 VARIABLES c, ph, res
 
 FMAXC == 99999                                   \* stands for MAX_FREQUENCY in the tick catalogue
@@ -31,16 +32,21 @@ Edge == <<                                        \* shapes on the three edges o
   G("Point", <<0, FMAXS>>),
   G("Point", <<6, 0>>),
   G("MultiPoint", <<<<0, FMAXS>>, <<4, 0>>>>),
+  G("MultiPoint", <<<<2, 0>>, <<6, FMAXS>>>>),
   G("LineString", <<<<2, FMAXS - 32>>, <<6, FMAXS>>>>),
   G("LineString", <<<<0, 0>>, <<2, FMAXS>>>>),
   G("LineString", <<<<2, 16>>, <<2, 48>>>>),
   G("LineString", <<<<0, 32>>, <<4, 0>>, <<8, 0>>>>),
-  G("MultiLineString", <<<<<<0, 16>>, <<0, 48>>>>, <<<<2, FMAXS - 16>>, <<4, FMAXS>>>>>>),
+  G("MultiLineString", <<<<<<0, 16>>, <<2, 48>>>>, <<<<2, FMAXS - 16>>, <<4, FMAXS>>>>>>),
   G("Polygon", <<Rect(2, FMAXS - 32, 6, FMAXS)>>),
   G("Polygon", <<<<<<0, 0>>, <<4, 0>>, <<0, 32>>, <<0, 0>>>>>>),
   G("MultiPolygon", <<<<Rect(0, 0, 2, 16)>>, <<Rect(4, FMAXS - 16, 6, FMAXS)>>>>),
   G("BoundingBox", <<0, FMAXS - 16, 2, FMAXS>>),
-  G("TimeInterval", <<0, 0>>)
+  G("TimeInterval", <<0, 0>>),
+  G("Point", <<4, 40000>>),                        \* 2.56 MHz and 4.6 MHz: where frequency * 1e9 runs out of fraction bits
+  G("Point", <<4, 72000>>),
+  G("LineString", <<<<2, 72000>>, <<6, 72000>>>>),
+  G("Polygon", <<Rect(2, 72000, 6, 72032)>>)
 >>
 TickCat == Catalogue(FMAXC)
 Geoms == [i \in 1..(Len(TickCat) + Len(Edge)) |-> IF i <= Len(TickCat) THEN Sub(TickCat[i]) ELSE Edge[i - Len(TickCat)]]
@@ -67,12 +73,12 @@ Probes(g) ==
         grid == [q \in 1..(nt * nf) |-> <<t0 + (q - 1) \div nf, fs[((q - 1) % nf) + 1]>>]
     IN  grid \o SeqOf(Vertices(g) \ Range(grid))          \* the vertices themselves are always probed
 
-Descriptors == {[gi |-> gi, i |-> i, j |-> j, neg |-> 0] : gi \in 1..Len(Geoms), i \in 1..5, j \in 1..5}
-          \cup {[gi |-> gi, i |-> 1, j |-> 1, neg |-> n] : gi \in 1..Len(Geoms), n \in 1..3}
+UnitsOf(gi, i, j) == IF AllUnits THEN 1..3 ELSE {((gi + i + 2 * j) % 3) + 1}        \* u: which time unit the binder uses
+Descriptors == UNION {{[gi |-> gi, i |-> i, j |-> j, neg |-> 0, u |-> u] : u \in UnitsOf(gi, i, j)} : gi \in 1..Len(Geoms), i \in 1..5, j \in 1..5}
+          \cup {[gi |-> gi, i |-> 1, j |-> 1, neg |-> n, u |-> (n % 3) + 1] : gi \in 1..Len(Geoms), n \in 1..3}
 B1(d) == IF d.neg = 0 THEN <<BT[d.i], BF[d.j]>> ELSE NegPairs[d.neg][1]
 B2(d) == IF d.neg = 0 THEN <<BT[Up(d.i)], BF[Up(d.j)]>> ELSE NegPairs[d.neg][2]
-Concrete(d) == [g |-> Geoms[d.gi], b1 |-> B1(d), b2 |-> B2(d), probes |-> Probes(Geoms[d.gi]),
-                u |-> ((d.gi + d.i + 2 * d.j) % 3) + 1]            \* u: which time unit the binder uses
+Concrete(d) == [g |-> Geoms[d.gi], b1 |-> B1(d), b2 |-> B2(d), probes |-> Probes(Geoms[d.gi]), u |-> d.u]
 
 Init == /\ c \in {d \in Descriptors : (d.gi * 7 + d.i * 3 + d.j + d.neg) % GeomStride = 0}
         /\ ph = "in" /\ res = <<>>
@@ -88,6 +94,8 @@ Spec == Init /\ [][Next]_vars
 Export == ph = "out" => PrintT(<<"CASE", ToJson(Concrete(c))>>)
 
 (* ---- laws of the specification, for every geometry of the catalogue and ALL ordered buffer pairs ---- *)
+\* (they depend on the geometry only: evaluated once per geometry, in the state after Compute)
+LawAt == ph = "out" /\ c.i = 1 /\ c.j = 1 /\ c.neg = 0 /\ c.u = CHOOSE u \in UnitsOf(c.gi, 1, 1) : TRUE
 GG == Geoms[c.gi]
 PP == Range(Probes(GG))
 AllB == {<<BT[i], BF[j]>> : i \in 1..5, j \in 1..5}
@@ -95,30 +103,35 @@ Le2(a, b) == a[1] <= b[1] /\ a[2] <= b[2]
 IsClosed == GG.type \in ClosedKinds
 \* closed forms: the result contains the original, larger buffers give supersets (no restriction on the ratio),
 \* the result is a valid geometry inside the domain, and its bounds are exactly the widened, clipped bounds
-LawClosedContains == (ph = "in" /\ IsClosed) => \A b \in AllB : \A p \in PP : OnOrIn(GG, p) => OnOrIn(BufClosed(GG, b), p)
-LawClosedMonotone == (ph = "in" /\ IsClosed) => \A b \in AllB : \A b2 \in AllB : Le2(b, b2) =>
-                          \A p \in PP : OnOrIn(BufClosed(GG, b), p) => OnOrIn(BufClosed(GG, b2), p)
-LawClosedDomain   == (ph = "in" /\ IsClosed) => \A b \in AllB :
+LawClosedContains == (LawAt /\ IsClosed) => LET pp == PP IN \A b \in AllB : \A p \in pp : OnOrIn(GG, p) => OnOrIn(BufClosed(GG, b), p)
+LawClosedMonotone == (LawAt /\ IsClosed) => LET pp == PP IN \A b \in AllB : \A b2 \in AllB : Le2(b, b2) =>
+                          \A p \in pp : OnOrIn(BufClosed(GG, b), p) => OnOrIn(BufClosed(GG, b2), p)
+LawClosedDomain   == (LawAt /\ IsClosed) => \A b \in AllB :
                           LET o == Bounds(BufClosed(GG, b), FMAXS) IN 0 <= o[1] /\ o[1] <= o[3] /\ 0 <= o[2] /\ o[2] <= o[4] /\ o[4] <= FMAXS
-LawClosedWidening == (ph = "in" /\ IsClosed) => \A b \in AllB : Bounds(BufClosed(GG, b), FMAXS) = Target(GG, b)
+LawClosedWidening == (LawAt /\ IsClosed) => \A b \in AllB : Bounds(BufClosed(GG, b), FMAXS) = Target(GG, b)
 \* relational clauses are satisfiable: the clipped Minkowski rectangle Target(g, b) contains the original, lies in the
 \* domain and grows with the buffers; the tolerated round-cap target is never more demanding than the exact one
-LawWitness == ph = "in" => \A b \in AllB :
+LawWitness == LawAt => LET inp == {p \in PP : OnOrIn(GG, p)} IN \A b \in AllB :
     LET t == Target(GG, b) IN
     /\ 0 <= t[1] /\ t[1] <= t[3] /\ 0 <= t[2] /\ t[2] <= t[4] /\ t[4] <= FMAXS
-    /\ \A p \in PP : OnOrIn(GG, p) => t[1] <= p[1] /\ p[1] <= t[3] /\ t[2] <= p[2] /\ p[2] <= t[4]
+    /\ \A p \in inp : t[1] <= p[1] /\ p[1] <= t[3] /\ t[2] <= p[2] /\ p[2] <= t[4]
     /\ \A b2 \in AllB : Le2(b, b2) => LET t2 == Target(GG, b2) IN t2[1] <= t[1] /\ t2[2] <= t[2] /\ t[3] <= t2[3] /\ t[4] <= t2[4]
     /\ LET r == TargetRoundScaled(GG, b) IN CapD * t[1] <= r[1] /\ CapD * t[2] <= r[2] /\ r[3] <= CapD * t[3] /\ r[4] <= CapD * t[4]
 \* every vertex of the original is among the probes that must be contained (so Contains is never vacuous)
-LawProbesCoverVertices == ph = "in" => \A v \in (IF GG.type \in TimeOnlyKinds THEN {} ELSE Vertices(GG)) : v \in PP /\ OnOrIn(GG, v)
-LawSomeProbeOutside == ph = "in" => (GG.type \notin TimeOnlyKinds => \E p \in PP : ~OnOrIn(GG, p))
+LawProbesCoverVertices == LawAt => LET pp == PP IN \A v \in (IF GG.type \in TimeOnlyKinds THEN {} ELSE Vertices(GG)) : v \in pp /\ OnOrIn(GG, v)
+LawSomeProbeOutside == LawAt => (GG.type \notin TimeOnlyKinds => \E p \in PP : ~OnOrIn(GG, p))
 \* limb helpers agree with integer arithmetic
-LawLimbs == ph = "in" => \A a \in {0, 1, 5, FMAXS} : \A b \in {0, 1, 4, 5, 6, FMAXS} :
-    /\ LGeS(LInt(a), LInt(b)) <=> a >= b
-    /\ LLeS(LInt(a), LInt(b)) <=> a <= b
+LawLimbs == (LawAt /\ c.gi = 1) => \A a \in {0, 1, 5, FMAXS} : \A b \in {0, 1, 4, 5, 6, FMAXS} :
+    /\ LGeS(LInt(a), LInt(b), SlackFor(0)) <=> a >= b
+    /\ LLeS(LInt(a), LInt(b), SlackFor(0)) <=> a <= b
+    /\ LEq(LAdd(LInt(a), LInt(b)), LInt(a + b)) \/ a + b = 0
+    /\ LET sm == LAdd(LRatDown(a * CapD + 100, CapD), LRatDown(b * CapD + 107, CapD))            \* 100/207 + 107/207, each truncated
+       IN  LLe(sm, LInt(a + b + 1)) /\ LLe(LRatDown((a + b + 1) * CapD - 1, CapD), sm)
+    /\ LEq(LAdd(SlackFor(15), SlackFor(17)), <<1, 0, 2, 512, 0, 0, 1>>)
     /\ LEq(LRatDown(a * CapD, CapD), LInt(a))
     /\ LLe(LRatDown(a * CapD + 1, CapD), LRatDown(a * CapD + 2, CapD)) /\ ~LLe(LRatDown(a * CapD + 2, CapD), LRatDown(a * CapD + 1, CapD))
-LawMonoComparable == ph = "in" => /\ MonoComparable(<<1, 8>>, <<2, 16>>) /\ MonoComparable(<<0, 0>>, <<0, 8>>) /\ MonoComparable(<<4, 8>>, <<4, 8>>)
+LawMonoComparable == (LawAt /\ c.gi = 1) =>
+                                  /\ MonoComparable(<<1, 8>>, <<2, 16>>) /\ MonoComparable(<<0, 0>>, <<0, 8>>) /\ MonoComparable(<<4, 8>>, <<4, 8>>)
                                   /\ ~MonoComparable(<<4, 8>>, <<4, 16>>) /\ ~MonoComparable(<<1000, 0>>, <<1004, 0>>)
                                   /\ MonoComparable(<<206, 0>>, <<207, 0>>) /\ ~MonoComparable(<<2, 8>>, <<1, 16>>)
 LawOutcome == ph = "out" => Len(res) = 2
